@@ -68,6 +68,10 @@ CHECKS['C13'] = (OTHER, 'relational symbolic execution of the real StiffPanelBay
     'Bounded symbolic verification of the assembly layers for bays with 0..2 (thorough 4) stiffeners of the three kinds in any order, with/without base, assemblies of 2-3 panels of unequal series orders: size = sum of component sizes, k0/kG0/kM (and kT, fint, fext, recovered fields) = sum of component results at their ranges + connection terms, skin cut at 1..2 (4) symbolic positions leaves k0,kG0,kM unchanged.',
     'Composition only: component contents are decided in C02-C04/C12; stiffener beam-energy/PSD not decided; bay dimensions concrete; laminates of sub-components are symbolic stubs.',
     'DESIGN.md section 4 C13')
+CHECKS['C20'] = (OTHER, 'bounded call-history symbolic execution of the real Panel object: every sequence first-op ; redefinition ; last-op over the public alphabet vs a fresh twin with the final definition asked first; z3 identity per returned entry; caller arrays compared by identity; exact-rational replay',
+    'Bounded verification over call histories (14 operations x 14 x 7 redefinitions on flat and cylindrical panels, thorough: all pairs and the w-only model): results depend on the definition only, each quantity can be requested first on a fresh object, caller arrays are not modified.',
+    'History length <= 2 calls + 1 redefinition; eigen-solvers stubbed (the matrices passed are observed); OpenMP races and complete shells outside.',
+    'DESIGN.md section 4 C20')
 NA = {
     'C15': 'eigenvalue monotonicity/convergence for pencils of size 48..768 is not a bounded first-order query any installed solver can decide; the algebraic ingredients (exact Hessians, exact tables, nestedness) are decided under C02-C04 and C10 (DESIGN.md section 5)',
 }
